@@ -3,7 +3,7 @@
    are the committed model (Model/Overhang.v), for ALL arguments.  A semantic change of the source breaks one of
    these lemmas before any input is tried. *)
 From Coq Require Import ZArith List Bool Lia.
-From Pymoto Require Import Model.Grid Model.Overhang.
+From Pymoto Require Import Model.Grid Model.Overhang Model.OverhangHist.
 From GenC14 Require Import OverhangGen.
 Import ListNotations.
 Open Scope Z_scope.
@@ -37,3 +37,14 @@ Proof.
   unfold supports. change (gen_layer_offsets nsamp) with (layer_offsets nsamp). unfold gen_support_layer. f_equal.
   apply filter_ext. intros o. symmetry. apply (gen_mask_eq (n1 g dl) (n2 g dl) (padd p o)).
 Qed.
+
+(* the frame of an instance (Model/OverhangHist.v): the class has exactly these methods and no class-level attribute;
+   _response writes self.smax only (+ q, shift, backshift through set_parameters), _sensitivity writes nothing on
+   self; no other attribute of self is mentioned.  (The generator additionally refuses method calls on instance
+   state, out= arguments on it, nested functions, global statements and reflective access.) *)
+Lemma gen_frame_eq :
+  gen_methods = filter_methods /\ gen_class_attrs = class_level_attrs /\
+  gen_prepare_writes = prepare_writes /\ gen_set_parameters_writes = set_parameters_writes /\
+  gen_response_writes = response_writes /\ gen_sensitivity_writes = sensitivity_writes /\
+  gen_response_mentions = response_mentions /\ gen_sensitivity_mentions = sensitivity_mentions.
+Proof. repeat split; reflexivity. Qed.
